@@ -91,6 +91,7 @@ fn main() {
         }
         "c06-one" => props::c0607::replay_one("C06", &arg(&args, "--fen").unwrap(), arg(&args, "--depth").unwrap().parse().unwrap(), &arg(&args, "--at").unwrap(), arg(&args, "--final-depth").and_then(|x| x.parse().ok())),
         "c07-one" => props::c0607::replay_one("C07", &arg(&args, "--fen").unwrap(), arg(&args, "--depth").unwrap().parse().unwrap(), &arg(&args, "--at").unwrap(), None),
+        "c06-cmd" => props::c0607::replay_command_point(&arg(&args, "--fen").unwrap(), arg(&args, "--final-depth").unwrap().parse().unwrap(), &arg(&args, "--mode").unwrap(), arg(&args, "--at").unwrap().parse().unwrap()),
         "c06-history" => props::c0607::replay_history(&arg(&args, "--fen").unwrap(), arg(&args, "--depth").unwrap().parse().unwrap(), arg(&args, "--at").unwrap().parse().unwrap()),
         "c07-real" => props::c0607::replay_real(&engine_plain(&args), &arg(&args, "--prior").unwrap_or_default(), &arg(&args, "--target").unwrap(), &arg(&args, "--go").unwrap(), arg(&args, "--budget").unwrap().parse().unwrap()),
         "c07-go" => props::c0607::replay_go(&arg(&args, "--cmds").unwrap()),
